@@ -247,6 +247,14 @@ fn check(l: &Local, what: &COp) -> Result<(), String> {
     Ok(())
 }
 
+struct AssertSend<T>(T);
+unsafe impl<T> Send for AssertSend<T> {}
+impl<T> AssertSend<T> {
+    fn take(self) -> T {
+        self.0
+    }
+}
+
 fn run_thread(tid: usize, seed: u64, mut l: Local, ops: &[COp], shared: Option<(&LeanString, &str)>, barrier: &Barrier) -> (Result<(), String>, Vec<(u64, u32)>) {
     TRNG.with(|r| *r.borrow_mut() = Rng::new(mix(seed, tid as u64)));
     TLOG.with(|l| l.borrow_mut().clear());
@@ -432,7 +440,14 @@ pub fn run_exec(prog: &Program, seed: u64) -> (Option<String>, u64, usize, bool)
         for (tid, l) in it {
             let ops = &prog.threads[tid].1;
             let b = &barrier;
-            joins.push(s.spawn(move || run_thread(tid, seed, l, ops, shared, b)));
+            // Whether LeanString is Send/Sync is decided by the compile-time probe of the C04 check
+            // (harness/probe); the runner itself must keep building when those impls are missing,
+            // otherwise every other property's check would be taken down with it.
+            let w = AssertSend((l, shared));
+            joins.push(s.spawn(move || {
+                let (l, shared) = w.take();
+                run_thread(tid, seed, l, ops, shared, b)
+            }));
         }
         // the main thread is thread 0 of the program
         let r0 = run_thread(0, seed, l0, &prog.threads[0].1, shared, &barrier);
